@@ -7,6 +7,7 @@
 #include <cstring>
 #include <memory>
 #include "dump.hpp"
+#include "child.hpp"
 #include "memory_pool.hpp"
 #include "memory_pool_collection.hpp"
 
@@ -17,7 +18,8 @@ static Region* R;
 static Oracle* O;
 static long    next_id = 0;
 static long    n_ops = 0, n_ok = 0, n_null = 0, n_throw = 0, n_grow = 0, n_arrays = 0, n_dealloc = 0, n_foreign = 0, n_moves = 0,
-            n_cycles = 0;
+            n_cycles = 0, n_bad = 0, n_bad_reported = 0, n_bad_stopped = 0;
+static bool    bad_mode = false;
 
 static void emit(const std::string& op, const std::string& res, const std::string& st)
 {
@@ -407,6 +409,92 @@ static void run_pool(Rng& g, long nops, std::size_t node_size, std::size_t block
             }
         }
     }
+    if (bad_mode && O->failures.empty())
+    { // C16: releases the debug checks cover must be reported (or stop the program) before the state changes.
+      // Each bad call runs in a forked child; the parent's pool is untouched.
+        const bool small = std::is_same<List, detail::small_free_memory_list>::value;
+        const bool ordered = std::is_same<List, detail::ordered_free_memory_list>::value;
+        const bool ptr_check = FOONATHAN_MEMORY_DEBUG_POINTER_CHECK, dbl_check = FOONATHAN_MEMORY_DEBUG_DOUBLE_DEALLOC_CHECK && ptr_check;
+        auto       state = [&] { return pool_state(*pool); };
+        auto       probe = [&](const char* why, char* ptr)
+        {
+            std::string out = in_child(state, [&] { pool->deallocate_node(ptr); });
+            ++n_bad;
+            if (out == "reported")
+                ++n_bad_reported;
+            else if (out == "stopped")
+                ++n_bad_stopped;
+            else
+                O->fail(fmt("C16 bad release (%s, pointer %zu) to a %s pool was not reported before the state changed: %s", why,
+                            R->off(ptr), ListKind<List>::name(), out.c_str()));
+            emit(fmt("pool bad_dealloc_node %zu why=%s", R->off(ptr), why), out, pool_state(*pool));
+        };
+        if (dbl_check && (small || ordered))
+        { // double free: first, last, middle of the free list, the most recently freed node, a seeded one
+            auto fr = free_nodes(pool->free_list_);
+            if (!fr.empty())
+            {
+                probe("double-first", fr.front());
+                probe("double-last", fr.back());
+                probe("double-middle", fr[fr.size() / 2]);
+                probe("double-seeded", fr[g.below(fr.size())]);
+            }
+            if (!live.empty())
+            { // free a live node for real (valid), then free it again: "most recently freed"
+                std::size_t q = 0;
+                while (q < live.size() && live[q].array)
+                    ++q;
+                if (q < live.size())
+                {
+                    char* victim = static_cast<char*>(live[q].p);
+                    bool  tr = live[q].traits;
+                    std::size_t sz = live[q].size;
+                    O->on_release(live[q].id, "release");
+                    live.erase(live.begin() + long(q));
+                    if (tr)
+                    {
+                        Tr::deallocate_node(*pool, victim, sz, 1);
+                        emit(fmt("pool t_dealloc_node %zu %zu", R->off(victim), sz), "done", pool_state(*pool));
+                    }
+                    else
+                    {
+                        pool->deallocate_node(victim);
+                        emit(fmt("pool dealloc_node %zu", R->off(victim)), "done", pool_state(*pool));
+                    }
+                    probe("double-most-recent", victim);
+                }
+            }
+        }
+        if (small && ptr_check)
+        { // foreign pointers and pointers between node boundaries
+            probe("foreign-sibling", static_cast<char*>(foreign.blocks[0]) + 16);
+            probe("foreign-low", R->base + 4096);
+            probe("foreign-high", R->base + Region::total - 4096);
+            auto& sl = pool->free_list_;
+            for (auto c = reinterpret_cast<detail::small_free_memory_list&>(sl).base_.next;
+                 c != &reinterpret_cast<detail::small_free_memory_list&>(sl).base_; c = c->next)
+            {
+                char* cb = reinterpret_cast<char*>(c);
+                probe("chunk-header", cb + 8);
+                char* area_end = cb + detail::chunk_memory_offset + std::size_t(c->no_nodes) * ns;
+                probe("past-node-area", area_end);
+                if (ns > 1)
+                {
+                    probe("between-first", cb + detail::chunk_memory_offset + 1);
+                    probe("between-seeded", cb + detail::chunk_memory_offset + g.below(c->no_nodes) * ns + 1 + g.below(ns - 1));
+                    probe("between-last", area_end - 1);
+                }
+                if (g.chance(60))
+                    break;
+            }
+            for (auto& l : live)
+                if (!l.array && ns > 1)
+                {
+                    probe("inside-live-node", static_cast<char*>(l.p) + 1 + g.below(ns - 1));
+                    break;
+                }
+        }
+    }
     // release everything: capacity must come back (C04)
     O->verify_all("before final release");
     while (!live.empty() && O->failures.empty())
@@ -744,6 +832,7 @@ int main(int argc, char** argv)
     region.policy = int(g.below(3));
     if (argc > 4)
         region.fail_at = std::atol(argv[4]);
+    bad_mode = argc > 5 && std::string(argv[5]) == "bad";
     Handlers::install();
     std::printf("header subject=%s seed=%llu policy=%d fail_at=%ld %s\n", subject.c_str(), seed, region.policy, region.fail_at,
                 cfg_string().c_str());
@@ -867,8 +956,9 @@ int main(int argc, char** argv)
     for (auto& f : oracle.failures)
         std::printf("oracle-fail %s\n", f.c_str());
     std::printf("summary ops=%ld ok=%ld null=%ld throw=%ld grow=%ld arrays=%ld dealloc=%ld foreign=%ld moves=%ld cycles=%ld "
-                "up_alloc=%ld up_dealloc=%ld up_fail=%ld oracle_checks=%ld\n",
-                n_ops, n_ok, n_null, n_throw, n_grow, n_arrays, n_dealloc, n_foreign, n_moves, n_cycles, region.n_alloc,
+                "bad=%ld bad_reported=%ld bad_stopped=%ld up_alloc=%ld up_dealloc=%ld up_fail=%ld oracle_checks=%ld\n",
+                n_ops, n_ok, n_null, n_throw, n_grow, n_arrays, n_dealloc, n_foreign, n_moves, n_cycles, n_bad, n_bad_reported,
+                n_bad_stopped, region.n_alloc,
                 region.n_dealloc, region.n_fail, oracle.checks);
     return 0;
 }
